@@ -7,6 +7,9 @@
 (*   Aux{ep, req, at, answer, delivered}  the real code made the auxiliary request req at provider `at`  *)
 (*                                  (logged by the fake provider when it is really called) and was   *)
 (*                                  given `answer`; delivered = value | fault: what it got back         *)
+(*   Poll{ep, relay, n, answer}     the real code asked scripted relay `relay` for the n-th time within this   *)
+(*                                  call (logged by the relay when it is really asked, before it answers) and  *)
+(*                                  was given `answer`                                                         *)
 (*   Outcome{ep, outcome}           the duty ended: ok | error | fallback (only accepted once the    *)
 (*                                  input was consumed end to end: Robustness!Consumed)              *)
 (*   Undeliverable{ep}              the real library decoder does not deliver this (gated) shape    *)
@@ -51,6 +54,16 @@ TraceAux ==
     /\ Trace[l].delivered = AuxClass(Trace[l].answer)
     /\ Aux([req |-> Trace[l].req, at |-> Trace[l].at, answer |-> Trace[l].answer])
 
+\* the relay can only give the answer the model chose for the n-th poll of this input
+TracePoll ==
+    /\ IsEvent("Poll")
+    /\ pending.ep = Trace[l].ep
+    /\ Trace[l].n >= 1
+    /\ LET n == IF Trace[l].n > MaxPoll THEN MaxPoll ELSE Trace[l].n
+       IN  /\ Trace[l].relay \in Relays
+           /\ Trace[l].answer = PollAnswer(pending.ep, pending.shape, Trace[l].relay, n)
+           /\ Poll(Trace[l].relay, n)
+
 TraceOutcome ==
     /\ IsEvent("Outcome")
     /\ pending.ep = Trace[l].ep
@@ -66,7 +79,7 @@ TraceDecoderPanic ==
     /\ pending.ep = Trace[l].ep
     /\ DecoderPanic
 
-TraceNext == TraceReset \/ TraceCall \/ TraceAux \/ TraceDecoded \/ TraceUse \/ TraceOutcome \/ TraceUndeliverable \/ TraceDecoderPanic
+TraceNext == TraceReset \/ TraceCall \/ TraceAux \/ TracePoll \/ TraceDecoded \/ TraceUse \/ TraceOutcome \/ TraceUndeliverable \/ TraceDecoderPanic
 
 TraceSpec == TraceInit /\ [][TraceNext]_tvars
 
